@@ -389,6 +389,14 @@ def g5_utf8(rng, n, prefix="g5", big=False):
         emit(base, [[0x61, 0xE9, 0x3042, 0x1F600, 0x61, 0x62], [0x7A, 0x3042, 0x3042, 0x61, 0x10FFFF, 0xE9, 0x3042]], kind, 16, "STR")
     if big:
         emit([[0x10FFFF, 0x61], [0x61]], [[0x10FFFF, 0x61, 0x10FFFF]], 0, 16, "STR")
+    # leftmost-first: shadowed patterns whose characters occur in no registered pattern (the code
+    # mapper still knows them; enough of them to cross the next power of two of the live alphabet)
+    for extra in (4, 9, 20, 70):
+        if k >= n:
+            break
+        pats = [[0x61]] + [[0x61, 0x100 + i] for i in range(extra)] + [[0x62, 0x61]]
+        hs = [[0x100 + extra - 1], [0x61, 0x100 + extra - 1, 0x100, 0x62, 0x61, 0x100 + extra // 2], [0x62, 0x100 + extra - 1, 0x61]]
+        emit(pats, hs, 2, 16, "STR")
     # deterministic large alphabets (character-wise block length 512 / 1024 / 2048): every character c
     # as a pattern and every pair (c, most frequent character), so that the states outnumber one
     # block and the last states get their base in a block of which only the low part is used;
@@ -478,6 +486,9 @@ def g6_invalid(rng, n, prefix="g6"):
         emit([b"", b"x"], 0, var, "build", "usize", nfb=4294967295)
         emit([b"a", b"a"], 0, var, "new", "u32")
         emit([b""], 0, var, "with_values", "u32")
+        emit(good, 0, var, "new", "u32")
+        emit(good, 0, var, "with_values", "u64")
+        emit([b"ab", b"b", b"abc"], 0, var, "new", "usize")
     while k < n:
         alpha = rng.choice([b"ab", b"abc"])
         pats = [rand_word(rng, alpha, 0 if rng.chance(1, 4) else 1, 3) for _ in range(rng.range(0, 7))]
@@ -565,12 +576,12 @@ PLAN = {
     "C04": ((2,), [("g1", 220, 3000), ("g2", 40, 800), ("g3", 4, 24), ("g5", 30, 600), ("g9", 40, 400), ("g11", 12, 120), ("g4", 12, 100), ("g3s", 1, 6), ("g10", 6, 40)]),
     "C05": ((0,), [("g11", 20, 200), ("g1", 220, 3000), ("g2", 40, 800), ("g3", 4, 24), ("g5", 30, 600), ("g4", 12, 100), ("g3s", 1, 6), ("g10", 6, 40)]),
     "C06": ((0, 1, 2), [("g13", 2, 6), ("g7", 160, 2500), ("g1", 120, 1500), ("g5", 20, 300), ("g3", 2, 10), ("g11", 8, 60)]),
-    "C07": ((0, 1, 2), [("g11", 20, 200), ("g1", 150, 2000), ("g2", 40, 800), ("g3", 5, 30), ("g5", 40, 800), ("g7", 60, 400), ("g4", 70, 700), ("g3s", 1, 8)]),
+    "C07": ((0, 1, 2), [("g17", 4, 7), ("g11", 20, 200), ("g1", 150, 2000), ("g2", 40, 800), ("g3", 5, 30), ("g5", 40, 800), ("g7", 60, 400), ("g4", 70, 700), ("g3s", 1, 8)]),
     "C08": ((0, 1, 2), [("g15", 7, 7), ("g5", 90, 2500)]),
-    "C09": ((0, 1, 2), [("g13", 3, 12), ("g7", 200, 3000), ("g1", 100, 1500), ("g5", 30, 400), ("g3", 2, 10), ("g11", 8, 60)]),
+    "C09": ((0, 1, 2), [("g17", 7, 7), ("g13", 3, 12), ("g7", 200, 3000), ("g1", 100, 1500), ("g5", 30, 400), ("g3", 2, 10), ("g11", 8, 60)]),
     "C10": ((0, 1, 2), [("g15", 7, 7), ("g6", 620, 4000), ("g3", 5, 30), ("g3s", 2, 10), ("g4", 14, 140), ("g11", 10, 80), ("g5", 10, 120)]),
     "C11": ((0, 1, 2), [("g3", 7, 40), ("g3s", 3, 16), ("g4", 35, 350)]),
-    "C12": ((0,), [("g1", 200, 3000), ("g2", 40, 800), ("g5", 40, 800), ("g11", 10, 100), ("g10", 6, 40)]),
+    "C12": ((0,), [("g18", 4, 12), ("g3", 2, 8), ("g1", 200, 3000), ("g2", 40, 800), ("g5", 40, 800), ("g11", 10, 100), ("g10", 6, 40)]),
     "C13": ((0, 1, 2), [("g16", 24, 60), ("g1", 200, 3000), ("g2", 40, 800), ("g3", 4, 24), ("g5", 30, 600), ("g10", 12, 60), ("g4", 35, 350), ("g11", 30, 300)]),
     "C14": ((0, 1, 2), [("g12", 6, 24), ("g8", 12, 150), ("g1", 60, 600)]),
     "C15": ((0, 1, 2), [("g14", 24, 48), ("g1", 200, 3000), ("g2", 40, 800), ("g3", 5, 30), ("g5", 30, 600), ("g4", 35, 350), ("g11", 10, 100), ("g3s", 1, 6)]),
@@ -779,7 +790,51 @@ def g16_chain_alias(rng, n, prefix="g16"):
     return cases
 
 
-GENS = {"g16": g16_chain_alias, "g15": g15_long, "g14": g14_dense, "g13": g13_huge, "g11": g11_wide, "g4": g4_fill, "g3s": g3_sparse, "g1": g1_small, "g2": g2_bytes, "g3": g3_blocks, "g5": g5_utf8, "g6": g6_invalid,
+# ------------------------------------------------------------------------------------------ G17
+def g17_alphabet_edges(rng, n, prefix="g17"):
+    """character-wise alphabets of exactly 2^8 - 1, 2^8, 2^8 + 1 and 2^16 - 1, 2^16, 2^16 + 1 distinct
+    characters (code widths, block lengths and the INVALID_CODE sentinel at their boundaries), with the
+    round trip; two-character patterns keep construction fast.  The 2^16 sets are implementation +
+    specification only (ops letter N)."""
+    cases = []
+    pool = [c for c in range(0x20, 0x20 + 70000) if not 0xD800 <= c <= 0xDFFF]
+    plan = [(255, 0), (256, 0), (257, 1), (256, 2), (65535, 0), (65536, 0), (65537, 1)]
+    for k, (A, kind) in enumerate(plan[:n]):
+        cs = pool[:A]
+        pats = [enc([cs[i], cs[(i + 1) % A]]) for i in range(0, A, 2)] + [enc([cs[A - 1]])]
+        hs = [enc([cs[A - 1], cs[0], cs[1], cs[A - 2], cs[A - 1]]), enc([cs[A - 1]]), enc([cs[2], cs[3], 0x10FFFF, cs[A - 1]])]
+        big = A > 1000
+        vt = "u32"
+        cases.append(Case(f"{prefix}_{A}_{kind}", "cw", kind, 16, vt, "values", "SRN" if big else "STR",
+                          [(p, j) for j, p in enumerate(pats)], hs, bytes([9, 9]), suite="alphabetedge"))
+    return cases
+
+
+# ------------------------------------------------------------------------------------------ G18
+def g18_big_pull(rng, n, prefix="g18"):
+    """automata of several thousand states (a dozen and more blocks) searched through the
+    byte-iterator entry points with matches in the middle of the haystack: whatever an
+    implementation does differently for large automata (prefetching, pipelining, chunked reads)
+    shows in the pull counts"""
+    cases = []
+    for k in range(n):
+        npat = (560, 900, 1500, 2400)[k % 4]
+        L = (8, 6, 5, 4)[k % 4]
+        var = "cw" if k % 3 == 2 else "bw"
+        if var == "bw":
+            pats = uniq(bytes(rng.below(256) for _ in range(L)) for _ in range(npat))
+        else:
+            pats = uniq(enc([0x3042 + rng.below(80) for _ in range(L)]) for _ in range(npat))
+        hs = []
+        for j in range(3):
+            a, b = pats[rng.below(len(pats))], pats[rng.below(len(pats))]
+            junk = bytes([0x78, 0x79]) if var == "bw" else b"xy"
+            hs.append(junk + a + junk + b[: len(b) - (1 if var == "bw" else 3)] + junk + b + junk[:1])
+        cases.append(Case(f"{prefix}_{k}", var, 0, 16, "u32", "build", "S", [(p, j) for j, p in enumerate(pats)], hs, b"", suite="bigpull"))
+    return cases
+
+
+GENS = {"g18": g18_big_pull, "g17": g17_alphabet_edges, "g16": g16_chain_alias, "g15": g15_long, "g14": g14_dense, "g13": g13_huge, "g11": g11_wide, "g4": g4_fill, "g3s": g3_sparse, "g1": g1_small, "g2": g2_bytes, "g3": g3_blocks, "g5": g5_utf8, "g6": g6_invalid,
         "g7": g7_values, "g8": g8_perm, "g9": g9_orders, "g10": g10_failchains, "g12": g12_threads}
 
 
